@@ -120,6 +120,19 @@ def run(prop, tier):
                 infos.append('%s: %s' % (opt, line[2:]))
             if line.startswith('D\t'):
                 drivers.append('%s: %s' % (opt, line.split('\t', 2)[2]))
+    # "only the objects passed to them": every load and store of every accessor against the exact extent of the header it was
+    # given, at all 8 address residues (the instrumented pass C03 uses): a read-modify-write of a wider aligned word that
+    # covers a neighbouring object is a write to memory that was not passed in, although it stores the same bytes back
+    for opt in ('-O0', '-O2'):
+        xe = os.path.join(b, 'explore_sched' + opt)
+        p = subprocess.run([xe, '--extent'], stdout=subprocess.PIPE, stderr=subprocess.PIPE, text=True)
+        r2 = core.Result()
+        if p.returncode != 0 or not r2.parse(p.stdout, 'extent' + opt):
+            core.die_infra('instrumented extent pass failed: ' + p.stderr[-500:])
+        for (op, key), info in r2.viol.items():
+            res.viol[('C16', 'access outside the object that was passed: ' + key)] = dict(info, tag='extent' + opt)
+        res.counters['cases'] = res.counters.get('cases', 0) + r2.counters.get('cases', 0)
+        res.counters['transitions'] = res.counters.get('transitions', 0) + r2.counters.get('transitions', 0)
     bad, nobj = writable_sections()
     for x in bad:
         res.viol[('C16', 'writable static storage in the library: ' + x)] = {'count': 1, 'case': 'O:0', 'detail': x, 'tag': ''}
